@@ -235,17 +235,7 @@ fn eval_filter_expr(
     };
 
     for predicate in filter.predicates() {
-        context.push_size(nodes.len());
-        let mut filtered = vec![];
-        for (position, n) in nodes.into_iter().enumerate() {
-            context.push_position(position + 1);
-            if eval_predicate(predicate, n.clone(), context)? {
-                filtered.push(n);
-            }
-            context.pop_position();
-        }
-        nodes = filtered;
-        context.pop_size();
+        nodes = filter_by_predicate(predicate, nodes, context)?;
     }
 
     Ok(nodes.as_value())
@@ -415,17 +405,7 @@ fn eval_axis_node_test(
     }
 
     for predicate in predicates {
-        context.push_size(nodes.len());
-        let mut filtered = vec![];
-        for (position, n) in nodes.into_iter().enumerate() {
-            context.push_position(position + 1);
-            if eval_predicate(predicate, n.clone(), context)? {
-                filtered.push(n);
-            }
-            context.pop_position();
-        }
-        nodes = filtered;
-        context.pop_size();
+        nodes = filter_by_predicate(predicate, nodes, context)?;
     }
 
     Ok(nodes)
@@ -482,6 +462,32 @@ fn eval_node_test(
                 || node.node_type() == dom::NodeType::CData),
         },
     }
+}
+
+/// Keeps the nodes for which the predicate holds. The context size and position pushed for
+/// the evaluation are popped again on every path, including an error in the predicate.
+fn filter_by_predicate(
+    predicate: &expr::Expr,
+    nodes: Vec<dom::XmlNode>,
+    context: &mut model::Context,
+) -> error::Result<Vec<dom::XmlNode>> {
+    context.push_size(nodes.len());
+    let mut filtered = Ok(vec![]);
+    for (position, n) in nodes.into_iter().enumerate() {
+        context.push_position(position + 1);
+        let keep = eval_predicate(predicate, n.clone(), context);
+        context.pop_position();
+        match (keep, &mut filtered) {
+            (Ok(true), Ok(f)) => f.push(n),
+            (Ok(_), _) => {}
+            (Err(e), _) => {
+                filtered = Err(e);
+                break;
+            }
+        }
+    }
+    context.pop_size();
+    filtered
 }
 
 fn eval_predicate(
